@@ -133,6 +133,35 @@ pub fn gen(args: &Args) {
             }
         }
     }
+    // the same conversions made from several threads at once, each thread working in its own era
+    let mut handles = Vec::new();
+    for t in 0..6u64 {
+        let mut rr = Rng::new(seed ^ (0xC17C + t));
+        let per = n_rand / 8;
+        handles.push(std::thread::spawn(move || {
+            let mut evs = Vec::new();
+            let centre = lo + (hi - lo) / 7 * (t as i64 + 1);
+            for i in 0..per {
+                let rd = if i % 4 == 0 { rr.range(lo, hi) } else { (centre + rr.range(-800, 800)).clamp(lo, hi) };
+                let date = NaiveDate::from_num_days_from_ce_opt(rd as i32).unwrap();
+                let cwd = date.weekday().number_from_sunday() as i64;
+                evs.push(match convert(date) {
+                    Ok((h, txt)) => json!({"ev": "hijr", "out": "ret", "rd": rd, "gy": date.year(), "gm": date.month(), "gd": date.day(),
+                        "y": h.y, "m": h.m, "d": h.d, "bh": h.bh, "wd": h.wd, "cwd": cwd, "run": 0, "txt": txt, "thread": t}),
+                    Err(_) => json!({"ev": "hijr", "out": "panic", "rd": rd, "gy": date.year(), "gm": date.month(), "gd": date.day(),
+                        "y": 0, "m": 0, "d": 0, "bh": false, "wd": 0, "cwd": cwd, "run": 0, "txt": false, "thread": t}),
+                });
+            }
+            evs
+        }));
+    }
+    let mut conc = 0;
+    for hd in handles {
+        for e in hd.join().unwrap_or_default() {
+            conc += 1;
+            w.emit(e);
+        }
+    }
     let n = w.finish();
-    println!("{}", json!({"events": n, "dates": n_dates, "panics": n_panic, "random_order": n_rand}));
+    println!("{}", json!({"events": n, "dates": n_dates, "panics": n_panic, "random_order": n_rand, "concurrent": conc}));
 }
